@@ -45,7 +45,7 @@ def _one(name):
     d = json.load(open(os.path.join(tvrun.WORK, "dump", name + ".json")))
     t0 = time.time()
     try:
-        o = c20.check_program(_MIR, _PROGS[name], d)
+        o = c20.check_program_cf(_MIR, _PROGS[name], d)
     except Exception:
         import traceback
         o = {"status": "unsupported", "reason": "internal: " + traceback.format_exc()[-500:], "queries": 0, "finding": None, "profiles": {}}
@@ -58,7 +58,8 @@ def run_m(res):
     tv_engine.build()
     import gen, tvrun, tv, lang
     mir_path = dump_mir()
-    progs = [p for p in gen.corpus(res.seed, res.tier) if p.meta["family"] in ("F1", "F2", "F8", "F9") or (p.meta["family"] == "F3" and int(p.meta["name"].split("_")[-1]) < (60 if res.tier == "quick" else 400))]
+    progs = [p for p in gen.corpus(res.seed, res.tier) if p.meta["family"] in ("F1", "F2", "F8", "F9", "F12") or (p.meta["family"] == "F3" and int(p.meta["name"].split("_")[-1]) < (60 if res.tier == "quick" else 400))
+             or p.meta["name"].startswith(("f4_i32_sum", "f4_u8_sum", "f4_i32_nested", "f4_i32_early", "f4_i32_else_if", "f4_u16_else_if", "f4_i32_many", "f4_i64_if_value"))]
     shutil.rmtree(tvrun.WORK, ignore_errors=True)
     os.makedirs(os.path.join(tvrun.WORK, "src"))
     os.makedirs(os.path.join(tvrun.WORK, "dump"))
